@@ -1057,10 +1057,10 @@ def c08(tier, seed):
     scs += drive("C08", "curve", seed, 1500 if th else 150)
     # non-lattice geometry: arbitrary control points, arcs, arbitrary invertible transforms (rotation by any angle, anisotropic
     # scale, shear, mirror); the harness quantises the true outline to 1/1024 px (abstraction function) for ClassifyFill
-    scs += drive("C08", "curve-float", seed, 600 if th else 40)
+    scs += drive("C08", "curve-float", seed, 400 if th else 40)
     # curves long enough for the subdivision count to matter (64 x 64 surface, every third pixel decided)
-    scs += drive("C08", "curve-big", seed, 300 if th else 12)
-    scs += drive("C08", "curve-sweep", seed, 256 if th else 24)
+    scs += drive("C08", "curve-big", seed, 120 if th else 12)
+    scs += drive("C08", "curve-sweep", seed, 128 if th else 24)
     scs += curve_edge_binding(v, seed, th)
     scs += path_edge_binding(v, seed, th)
     # design level: the curve-edge machine (CurveEdge.tla) tracks the true quadratic within 3/4 px on every sample row and its
@@ -1069,7 +1069,7 @@ def c08(tier, seed):
     v.add_tlc(r)
     v.extra["ip_refinement"] = "MC_CurveEdge: CurveEdge.tla (compute_curve_steps, forward differences, ActiveEdge::step) within 3/4 px of the true curve on %d edges" % r.distinct
     v.exhaustive = False
-    simple_validate("C08", v, scs, "all", "Trace_Curve", sigfn=lambda sc, tup: {"fam": "curve", "kind": sc.get("kind")}, timeout=3000)
+    simple_validate("C08", v, scs, "all", "Trace_Curve", sigfn=lambda sc, tup: {"fam": "curve", "kind": sc.get("kind")}, timeout=6000)
     v.samples = [scs[0], scs[-1]]
     return v.finish()
 
